@@ -271,7 +271,7 @@ def classify_switch(b, sw):
             n = callee_name(dd[3]) or ""
             if re.search(r"Try>::branch$", n):
                 return ("try",)
-            if re.search(r"Iterator>?::next$", n):
+            if re.search(r"Iterator>?::next$|Iterator for .*>::next$", n):
                 return ("next",)
             return ("callres", n, ap)
         return ("discr", ap)
